@@ -55,6 +55,7 @@ struct SF : public STEPfile {
     using STEPfile::CreateScopeInstances;
     using STEPfile::ReadScopeInstances;
     using STEPfile::ReadData1;
+    using STEPfile::FindDataSection;
     int notCreated() const { return _entsNotCreated; }
 };
 
@@ -205,6 +206,11 @@ static int run_fn() {
             SDAI_Application_instance * o = sf.CreateSubSuperInstance( in, 1, e );
             r << "ok obj=" << ( ( o && o != ENTITY_NULL ) ? 1 : 0 );
             if( o && o != ENTITY_NULL ) delete o;
+        } else if( fn == "finddata" ) {
+            std::istringstream in( bytes );
+            InstMgr im; SF sf( reg, im );
+            int f = sf.FindDataSection( in );
+            r << "ok found=" << f << " " << obs( in );
         } else if( fn == "subsuperb" ) {
             // CreateSubSuperInstance on the bytes of an external mapping (the stream is positioned at its "(")
             std::istringstream in( bytes );
